@@ -17,3 +17,20 @@ PROPS["C19"] = dict(
     technique="exhaustive enumeration of finite domains on the real code (bounded-exhaustive explorer)",
     assumptions=["clang 14 -O1 ASan+UBSan build of the current /repo tree; x86-64", "the reference model (harness/vx.c) is validated against a byte-per-entry implementation at every start"],
 )
+
+MIN = MINCACHE
+def _c01_runs(tier):
+    rs = []
+    for mode in ("grid", "split", "big"):
+        rs.append(Run(C(), "harness/p_c01.c", ["--mode=" + mode], group="host-" + mode))
+        rs.append(Run(C(sse2=0, **MIN), "harness/p_c01.c", ["--mode=" + mode], group="min-" + mode))
+    return rs
+
+PROPS["C01"] = dict(
+    level="exploration", runs=_c01_runs,
+    rule="complete product of declared alphabets: multiplication routes x parameters (k in {-1..17 sample incl. all of 2..8}, cutoffs) x shape triples x operand pattern pairs (dense pairs, sparse, identity, zero, and complete unit bases by bilinearity: l cyclic one-entry-per-row matrices for A, l for B); a case is (route, parameter, shape, patterns); non-trivial = the reference product is non-zero; distinct = distinct (operand digest, route, parameter)",
+    level_text="Bounded-exhaustive differential exploration: every multiplication entry point is executed on the complete Cartesian product of finite shape/pattern/parameter alphabets (all residues around 64-bit words, Strassen split limits, cubic/table switches) in a default and a minimum-cache/no-SSE2 build, and every result is compared bit for bit with an independent reference product; factors must be unchanged and padding zero; ASan/UBSan on.",
+    level_note="Bounded: dimensions <= ~1400, fixed pattern alphabets (unit bases are complete only under bilinearity, which is assumed, not proved). OpenMP front ends are covered in C16.",
+    technique="bounded-exhaustive enumeration of input/parameter alphabets on the real code against a reference model",
+    assumptions=["reference product in harness/vx.c (validated against a byte-per-entry triple loop at start-up)", "clang 14 ASan+UBSan builds: host cache sizes with SSE2, and L1/L2/L3 = 4K/32K/64K without SSE2"],
+)
